@@ -25,6 +25,8 @@ type BkmOp struct {
 	Yes    bool               `json:"yes,omitempty"`
 	Stdin  string             `json:"stdin,omitempty"`
 	Info   string             `json:"info,omitempty"` // "", dir, file
+	Extra  string             `json:"extra,omitempty"`       // resolve: an additional plain file argument
+	ExtraFirst bool           `json:"extra_first,omitempty"` // ... placed before the bookmark argument
 	Alias  bool               `json:"alias,omitempty"`
 	Plan   verifsim.FaultPlan `json:"plan"`
 	Rot    string             `json:"rot_b64,omitempty"`    // bookmarks.json replaced by this before the command
@@ -117,6 +119,10 @@ func (bkmEngine) generate(property string, seed int64, index int, tier string) *
 			if op.Name != "" && !strings.HasPrefix(op.Name, "@") {
 				op.Name = "@" + op.Name
 			}
+			if op.Name != "" && r.Chance(1, 3) {
+				op.Extra = r.Pick([]string{"w.klg", "x.klg", "sub dir/w.klg"})
+				op.ExtraFirst = r.Chance(1, 2)
+			}
 		}
 		if r.Chance(1, 6) {
 			op.Cpus = r.Pick2([]int{2, 8})
@@ -204,6 +210,12 @@ func (op *BkmOp) argv(root string) []string {
 	case "resolve":
 		if op.Name == "" {
 			return []string{"json"}
+		}
+		if op.Extra != "" {
+			if op.ExtraFirst {
+				return []string{"json", filepath.Join(root, op.Extra), op.Name}
+			}
+			return []string{"json", op.Name, filepath.Join(root, op.Extra)}
 		}
 		return []string{"json", op.Name}
 	}
@@ -495,6 +507,10 @@ func (bkmEngine) execute(sc *Scenario) *Outcome {
 				expectFail = true
 			} else if ex, _ := fileValid(p); !ex {
 				expectFail = true
+			} else if op.Extra != "" {
+				if ex2, _ := fileValid(filepath.Join(root, op.Extra)); !ex2 {
+					expectFail = true
+				}
 			}
 		}
 		if expectFail != res.Failed {
@@ -577,7 +593,15 @@ func (bkmEngine) execute(sc *Scenario) *Outcome {
 				report(i, op, argv, "info-differs", fmt.Sprintf("output %q, expected %q", res.Stdout, want))
 			}
 		case "resolve":
-			direct := runProc(&ProcSpec{Argv: []string{"json", model[name]}, Base: clock, Root: root, Cpus: 1, Env: env})
+			directArgv := []string{"json", model[name]}
+			if op.Extra != "" {
+				if op.ExtraFirst {
+					directArgv = []string{"json", filepath.Join(root, op.Extra), model[name]}
+				} else {
+					directArgv = []string{"json", model[name], filepath.Join(root, op.Extra)}
+				}
+			}
+			direct := runProc(&ProcSpec{Argv: directArgv, Base: clock, Root: root, Cpus: 1, Env: env})
 			out.Procs++
 			if direct.Stdout != res.Stdout || direct.ExitCode != res.ExitCode {
 				report(i, op, argv, "resolve-differs", fmt.Sprintf("`klog json %s` and `klog json %s` differ: %q vs %q", op.Name, model[name], shortText(res.Stdout, 200), shortText(direct.Stdout, 200)))
